@@ -2,53 +2,52 @@ import EAO.Lemmas.State
 /-!
 # C10 — building a problem is a pure function of parameters, prices and grid (slot logic)
 
-Model: `EAO.Model.State` (the mutable slots of grid objects, assets and portfolio; what every primitive
-builder reads from them).  The theorems say: in every state reachable by any finite sequence of
-`set_timegrid` / set-up / portfolio set-up / `dcf` / `fill_level` / `make_slp` calls on freshly
-constructed objects, a set-up call makes every builder read exactly the asset's OWN window, frequency
-and wacc, on the grid the call names (or the asset was put on) — nothing another asset or an earlier
-call left in the shared grid object.
+Model: `EAO.Model.State` (the mutable slots of grid objects, of the portfolio and of every object of the asset TREES — wrappers
+nested in wrappers to any depth, linked assets —; what every builder reads from them).  The theorems say: in every state reachable
+by any finite sequence of `set_timegrid` / set-up / portfolio set-up / split set-up / `dcf` / `fill_level` / `make_slp` calls on
+freshly constructed objects (calls on top-level assets and, directly, on wrapped assets at any depth), a set-up call makes every
+builder read exactly the object's OWN window (clipped by the windows of the wrappers above it inside the object the call names),
+frequency and wacc, on the grid the call names (or the object was put on) — nothing another asset or an earlier call left in the
+shared grid object, and no window a wrapper clipped during an earlier call.
 
-What this does NOT cover (only the history oracle `harness/comp/history.py` does): aliasing of Python
-containers, pandas in-place semantics (`prices_to_grid` replacing the index of the caller's DataFrame),
-the numeric content of the restricted grid.
+What this does NOT cover (only the history oracle `harness/comp/history.py` does): aliasing of Python containers, pandas in-place
+semantics (`prices_to_grid` replacing the index of the caller's DataFrame), the numeric content of the restricted grid, the state
+after an exception other than "no grid set".
 -/
 namespace EAO.C10
 open EAO.State
 
 /-- **C10 (slot logic).**  Current code (`current`: after 7e0d787 and 19afd7c): for every reachable state and EVERY call,
     what the builders read (`Result`) is what they should read (`setupPure`): the own window / frequency / wacc of every
-    asset involved (structured assets' inner windows clipped from the ORIGINAL inner windows), on the grid the call names
+    object of the tree involved (windows clipped, through all levels, from the ORIGINAL windows), on the grid the call names
     or, without grid argument, on the grid the object itself was put on (`ownPtrs`).  No side condition is left. -/
 theorem setup_pure (env : Env) (s : PyState) (hs : Reachable current env s) (call : Call) :
     (setupSt current env s call).2 = setupPure env (ownPtrs s) call := by
   obtain ⟨calls, rfl⟩ := hs
   have hI : Inv env (run current env (init env) calls) := run_inv current env calls _ (inv_init env)
   cases call with
-  | setTimegrid a g => simp [setupSt, setupPure]
-  | setup a arg =>
+  | setTimegrid ad g => simp [setupSt, setupPure]
+  | setup ad arg =>
     cases arg with
-    | some g => simpa [setupSt, setupPure] using setupAsset_arg current env _ a g hI
-    | none =>
-      have := setupAsset_noarg env _ a hI
+    | some g =>
+      have := setupAt_arg current env _ ad g hI
       simp only [setupSt, setupPure]
       rw [this]
-      cases ownGrid env (ownPtrs (run current env (init env) calls)) a <;> rfl
-  | setTimegridSub a i g => simp [setupSt, setupPure]
-  | setupSub a i arg => exact setupSubSt_eq env _ a i arg hI
+      cases env.at ad <;> rfl
+    | none =>
+      have := setupAt_noarg env _ ad hI
+      simp only [setupSt, setupPure]
+      rw [this]
+      cases env.at ad <;> rfl
   | setupPortfolio arg => exact (setupPortfolioSt_eq current env _ arg hI).1
   | setupSplit g tmp =>
     have h := (setupIntervals_eq current env tmp _ hI).1
     simp only [setupSt, setupPure]
-    rcases hsi : setupIntervals current env (run current env (init env) calls) tmp with ⟨s1, r⟩
-    rw [hsi] at h
-    simp only at h
-    subst h
-    rfl
+    rw [h]
   | dcf a => rfl
   | fillLevel a =>
     simp only [setupSt, setupPure, ownPtrs]
-    cases ((run current env (init env) calls).assets a).grid <;> rfl
+    cases ((run current env (init env) calls).objs [a]).grid <;> rfl
   | makeSlp g t =>
     have hI1 : Inv env { (run current env (init env) calls) with
         grids := writeRestricted (writeRestricted (run current env (init env) calls).grids g (some t, none, none)) g (none, some t, none) } := hI
@@ -57,12 +56,19 @@ theorem setup_pure (env : Env) (s : PyState) (hs : Reachable current env s) (cal
     rw [this]
     rfl
 
-/-- a set-up WITH grid argument never depended on the history, in every code version,
-    for plain, scaled and structured assets alike -/
-theorem setup_pure_with_grid (v : Version) (env : Env) (s : PyState) (hs : Reachable v env s) (a g : Nat) :
-    (setupSt v env s (.setup a (some g))).2 = .ok (pureAsset (env.asset a) g) := by
+/-- a set-up WITH grid argument never depended on the history, in every code version, for the object at ANY address:
+    plain, scaled, structured and linked assets, top-level or wrapped at any depth and called directly -/
+theorem setup_pure_with_grid (v : Version) (env : Env) (s : PyState) (hs : Reachable v env s) (ad : Addr) (g : Nat) :
+    (setupSt v env s (.setup ad (some g))).2 = match env.at ad with
+      | some x => .ok (pureAsset x g)
+      | none => .ok [] := by
   obtain ⟨calls, rfl⟩ := hs
-  exact setupAsset_arg v env _ a g (run_inv v env calls _ (inv_init env))
+  exact setupAt_arg v env _ ad g (run_inv v env calls _ (inv_init env))
+
+/-- the same for a top-level asset, in the words of the flat model -/
+theorem setup_pure_with_grid_top (v : Version) (env : Env) (s : PyState) (hs : Reachable v env s) (a g : Nat) :
+    (setupSt v env s (.setup [a] (some g))).2 = .ok (pureAsset (env.asset a) g) := by
+  rw [setup_pure_with_grid v env s hs, at_top]
 
 /-- the same for a portfolio set-up: the problem of every asset is built from its own data although all assets
     write into the SAME grid object one after the other -/
@@ -79,17 +85,94 @@ theorem setup_pure_split (v : Version) (env : Env) (s : PyState) (hs : Reachable
   obtain ⟨calls, rfl⟩ := hs
   have h := (setupIntervals_eq v env tmp _ (run_inv v env calls _ (inv_init env))).1
   simp only [setupSt]
-  rcases hsi : setupIntervals v env (run v env (init env) calls) tmp with ⟨s1, r⟩
-  rw [hsi] at h
-  simp only at h
-  subst h
-  rfl
+  rw [h]
 
-/-- the windows of wrapped assets survive every history (`finally:` in `StructuredAsset.setup_optim_problem`) -/
-theorem inner_windows_restored (v : Version) (env : Env) (s : PyState) (hs : Reachable v env s) (a : Nat) :
-    (s.assets a).sub.map win = (env.asset a).subs.map pwin := by
+/-- the windows of ALL objects (wrapped at any depth) survive every history: whatever a scaled / structured / linked asset
+    clips during its set-up it restores (`finally:`) -/
+theorem inner_windows_restored (v : Version) (env : Env) (s : PyState) (hs : Reachable v env s) (ad : Addr) :
+    win (s.objs ad) = iwin env ad := by
   obtain ⟨calls, rfl⟩ := hs
-  exact run_inv v env calls _ (inv_init env) a
+  exact run_inv v env calls _ (inv_init env) ad
+
+/-- stronger, and for every state: no single call changes the window of any object -/
+theorem call_keeps_windows (v : Version) (env : Env) (s : PyState) (call : Call) (ad : Addr) :
+    win ((setupSt v env s call).1.objs ad) = win (s.objs ad) :=
+  setupSt_win v env s call ad
+
+/-! ### what `pureAsset` says, without recursion -/
+
+/-- every builder below `x` (an object that is no structured asset: primitive assets and scaled assets) reads, when `x` is set up
+    on grid `g`, its own frequency and wacc and its own window clipped by the windows of ALL wrappers above it -/
+theorem pure_reads_clipped (g : Nat) : ∀ (q : List Nat) (x y : Asset) (s e : Option Int), x.sub? q = some y →
+    (∀ p l inner, y ≠ .structured p l inner) →
+    usedOf g (effWin x q s e).1 (effWin x q s e).2 y.params.freq y.params.wacc ∈ pureAt g x s e
+  | [], x, y, s, e, h, hy => by
+    simp only [Asset.sub?, Option.some.injEq] at h
+    subst h
+    cases x with
+    | plain p => simp [pureAt, effWin, Asset.params]
+    | scaled p b => simp [pureAt, effWin, Asset.params]
+    | structured p l inner => exact absurd rfl (hy p l inner)
+  | i :: q, x, y, s, e, h, hy => by
+    simp only [Asset.sub?] at h
+    cases hc : x.subs[i]? with
+    | none => rw [hc] at h; cases h
+    | some c =>
+      rw [hc] at h
+      simp only at h
+      have ih := pure_reads_clipped g q c y (clipStart c.params.start s) (clipStop c.params.stop e) h hy
+      simp only [effWin, hc]
+      cases x with
+      | plain p => simp [Asset.subs] at hc
+      | scaled p b =>
+        simp only [Asset.subs] at hc
+        cases i with
+        | zero =>
+          simp only [List.getElem?_cons_zero, Option.some.injEq] at hc
+          subst hc
+          simp only [pureAt, List.mem_append]
+          exact Or.inl ih
+        | succ i => simp at hc
+      | structured p l inner =>
+        simp only [Asset.subs] at hc
+        have := mem_pureList g inner i c s e _ hc ih
+        simp only [pureAt]
+        split
+        · exact List.mem_append_left _ this
+        · exact this
+
+/-! ### linked assets: the loop over the steps reads what the wrapped asset set up LAST left in the grid object -/
+
+/-- the builders of a linked asset read what those of the structured asset with the same inner assets read, and then the
+    `LinkedAsset` itself reads — for its loop `for t in range(self.timegrid.restricted.T)` — the window of the asset of its
+    portfolio that was set up LAST (here: a primitive or scaled asset `c` with own window, clipped by the linked asset's),
+    not its own window and not the windows of the two assets it links (the cause of known finding F-09e) -/
+theorem linked_reads_last_inner (g : Nat) (p : Params) (cs : List Asset) (c : Asset) (hc : ∀ q l inner, c ≠ .structured q l inner) :
+    pureAsset (.structured p true (cs ++ [c])) g
+      = pureAsset (.structured p false (cs ++ [c])) g
+        ++ [usedOf g (clipStart c.params.start p.start) (clipStop c.params.stop p.stop) c.params.freq c.params.wacc] := by
+  have hl : lastWrite g c (clipStart c.params.start p.start) (clipStop c.params.stop p.stop)
+      = usedOf g (clipStart c.params.start p.start) (clipStop c.params.stop p.stop) c.params.freq c.params.wacc := by
+    cases c with
+    | plain q => rfl
+    | scaled q b => rfl
+    | structured q l inner => exact absurd rfl (hc q l inner)
+  have e1 : (Asset.structured p true (cs ++ [c])).params = p := rfl
+  have e2 : (Asset.structured p false (cs ++ [c])).params = p := rfl
+  simp only [pureAsset, pureAt, e1, e2, lastWriteL_append, hl]
+  simp
+
+def lkA : Asset := .plain { start := some 5, stop := some 6 }
+def lkB : Asset := .plain { start := some 2, stop := some 15 }
+
+/-- so the read of a linked asset depends on the ORDER of the assets it wraps (witness of F-09e in the slot model: windows
+    5..6 and 2..15; the loop runs over the steps of 2..15 in one order, over those of 5..6 in the other) -/
+theorem linked_read_depends_on_inner_order :
+    (pureAsset (.structured {} true [lkA, lkB]) 0).getLast? ≠ (pureAsset (.structured {} true [lkB, lkA]) 0).getLast? := by
+  decide
+
+example : (pureAsset (.structured {} true [lkA, lkB]) 0).getLast? = some (usedOf 0 (some 2) (some 15) none 0) := by decide +kernel
+example : (pureAsset (.structured {} true [lkB, lkA]) 0).getLast? = some (usedOf 0 (some 5) (some 6) none 0) := by decide +kernel
 
 /-! ### why the fix 7e0d787 matters: without re-derivation the statement is false -/
 
@@ -101,18 +184,18 @@ theorem setup_not_pure_without_rederive :
     ¬ (∀ (env : Env) (s : PyState), Reachable { rederive := false } env s → ∀ call,
         (setupSt { rederive := false } env s call).2 = setupPure env (ownPtrs s) call) := by
   intro h
-  have := h envTwo _ ⟨[.setup 0 (some 7), .setup 1 (some 7)], rfl⟩ (.setup 0 none)
+  have := h envTwo _ ⟨[.setup [0] (some 7), .setup [1] (some 7)], rfl⟩ (.setup [0] none)
   revert this
   decide
 
-example : (setupSt { rederive := false } envTwo (run { rederive := false } envTwo (init envTwo) [.setup 0 (some 7), .setup 1 (some 7)]) (.setup 0 none)).2
+example : (setupSt { rederive := false } envTwo (run { rederive := false } envTwo (init envTwo) [.setup [0] (some 7), .setup [1] (some 7)]) (.setup [0] none)).2
     = .ok [{ grid := 7, restricted := some (some 5, some 9, none), disc := some 1 }] := by decide +kernel
-example : (setupSt current envTwo (run current envTwo (init envTwo) [.setup 0 (some 7), .setup 1 (some 7)]) (.setup 0 none)).2
+example : (setupSt current envTwo (run current envTwo (init envTwo) [.setup [0] (some 7), .setup [1] (some 7)]) (.setup [0] none)).2
     = .ok [{ grid := 7, restricted := some (some 0, some 4, none), disc := some 0 }] := by decide +kernel
 
 /-! ### why the fix 19afd7c matters: `ScaledAsset` without grid argument (former finding H2) -/
 
-def envScaled : Env := [.scaled { start := some 0 } { stop := some 9 }]
+def envScaled : Env := [.scaled { start := some 0 } (.plain { stop := some 9 })]
 
 /-- behaviour before 19afd7c (`scaledOwnGrid = false`): set-up on grid 1, `sca.set_timegrid(grid 2)`, set-up without grid
     argument: built on grid 1, the grid the BASE asset still sits on. -/
@@ -120,44 +203,81 @@ theorem scaled_noarg_not_pure_before_fix :
     ¬ (∀ (env : Env) (s : PyState), Reachable { scaledOwnGrid := false } env s → ∀ call,
         (setupSt { scaledOwnGrid := false } env s call).2 = setupPure env (ownPtrs s) call) := by
   intro h
-  have := h envScaled _ ⟨[.setup 0 (some 1), .setTimegrid 0 2], rfl⟩ (.setup 0 none)
+  have := h envScaled _ ⟨[.setup [0] (some 1), .setTimegrid [0] 2], rfl⟩ (.setup [0] none)
   revert this
   decide
 
 /-- before 19afd7c: `sca.set_timegrid(tg)` then `sca.setup_optim_problem(prices)` raised (the base asset has no grid) ... -/
-example : (setupSt { scaledOwnGrid := false } envScaled (run { scaledOwnGrid := false } envScaled (init envScaled) [.setTimegrid 0 3]) (.setup 0 none)).2
+example : (setupSt { scaledOwnGrid := false } envScaled (run { scaledOwnGrid := false } envScaled (init envScaled) [.setTimegrid [0] 3]) (.setup [0] none)).2
     = .error .noGrid := by decide
 /-- ... now it builds both problems on grid 3 -/
-example : (setupSt current envScaled (run current envScaled (init envScaled) [.setTimegrid 0 3]) (.setup 0 none)).2
+example : (setupSt current envScaled (run current envScaled (init envScaled) [.setTimegrid [0] 3]) (.setup [0] none)).2
     = .ok (pureAsset (envScaled.asset 0) 3) := by decide +kernel
-example : (setupSt current envScaled (run current envScaled (init envScaled) [.setup 0 (some 1), .setTimegrid 0 2]) (.setup 0 none)).2
+example : (setupSt current envScaled (run current envScaled (init envScaled) [.setup [0] (some 1), .setTimegrid [0] 2]) (.setup [0] none)).2
     = .ok (pureAsset (envScaled.asset 0) 2) := by decide +kernel
+
+/-! ### wrappers nested in wrappers: non-vacuity of the theorems above on a tree of depth 4 -/
+
+/-- a scaled asset (window 1..) over a structured asset (window ..8) holding a scaled asset (window 2..) over a contract (0..9,
+    wacc 1/2), a linked asset (window 3..7) over two assets, and a plain asset -/
+def envDeep : Env :=
+  [.scaled { start := some 1 }
+    (.structured { stop := some 8 } false
+      [.scaled { start := some 2 } (.plain { start := some 0, stop := some 9, wacc := 1/2 }),
+       .structured { start := some 3, stop := some 7 } true [.plain { stop := some 5 }, .plain { start := some 4, wacc := 1 }],
+       .plain {}]),
+   .plain { start := some 6 }]
+
+/-- the contract at depth 3 reads 2..8: its own window 0..9 clipped by 2.. (scaled), ..8 (structured) and 1.. (outer scaled) -/
+example : effWin (envDeep.asset 0) [0, 0, 0] (some 1) none = (some 2, some 8) := by decide
+example : pureAsset (envDeep.asset 0) 5 =
+    [usedOf 5 (some 2) (some 8) none (1/2), usedOf 5 (some 2) (some 8) none 0,      -- contract, scaled asset around it
+     usedOf 5 (some 3) (some 5) none 0, usedOf 5 (some 4) (some 7) none 1,          -- the two assets wrapped by the linked asset
+     usedOf 5 (some 4) (some 7) none 1,                                              -- the linked asset: what the last of them left
+     usedOf 5 (some 1) (some 8) none 0,                                              -- plain asset inside the structured asset
+     usedOf 5 (some 1) none none 0] := by decide +kernel                             -- outer scaled asset
+/-- after any history — here: a portfolio set-up on grid 1, a direct set-up of the inner scaled asset on grid 2, `set_timegrid(grid 3)`
+    on the linked asset, a split set-up — a set-up of the whole tree on grid 5 reads exactly that, and the windows are the constructed ones -/
+example : (setupSt current envDeep (run current envDeep (init envDeep)
+      [.setupPortfolio (some 1), .setup [0, 0, 0] (some 2), .setTimegrid [0, 0, 1] 3, .setupSplit 1 [10, 11]]) (.setup [0] (some 5))).2
+    = .ok (pureAsset (envDeep.asset 0) 5) := by decide +kernel
+example : win ((run current envDeep (init envDeep)
+      [.setupPortfolio (some 1), .setup [0, 0, 0] (some 2), .setTimegrid [0, 0, 1] 3, .setupSplit 1 [10, 11]]).objs [0, 0, 0, 0]) = (some 0, some 9) := by
+  decide
+/-- the linked asset at depth 2 set up directly without grid argument builds on the grid it was put on (3), with its own windows -/
+example : (setupSt current envDeep (run current envDeep (init envDeep)
+      [.setupPortfolio (some 1), .setTimegrid [0, 0, 1] 3]) (.setup [0, 0, 1] none)).2
+    = .ok [usedOf 3 (some 3) (some 5) none 0, usedOf 3 (some 4) (some 7) none 1, usedOf 3 (some 4) (some 7) none 1] := by decide +kernel
+/-- a chain of wrappers that never saw a grid works on the grid of the innermost base asset (`ownGrid`) -/
+example : (setupSt current [.scaled {} (.scaled { stop := some 3 } (.plain {}))]
+      (run current [.scaled {} (.scaled { stop := some 3 } (.plain {}))] (init [.scaled {} (.scaled { stop := some 3 } (.plain {}))]) [.setTimegrid [0, 0, 0] 4])
+      (.setup [0] none)).2
+    = .ok [usedOf 4 none (some 3) none 0, usedOf 4 none (some 3) none 0, usedOf 4 none none none 0] := by decide +kernel
 
 /-! ### known finding H3: a split set-up leaves WRAPPED assets on the grid of the last interval
 
 `setup_pure` takes the objects' own grid attributes as input.  What it cannot say is that these attributes are the ones
 the user's calls named: `setup_split_optim_problem(prices, tg, ...)` puts the portfolio and its TOP-LEVEL assets back on `tg`,
-the assets wrapped by a scaled / structured asset stay on the temporary grid of the last interval. -/
+the assets wrapped by a scaled / structured asset (at every depth) stay on the temporary grid of the last interval. -/
 
 instance (env : Env) (s : PyState) (g : Nat) : Decidable (AllOn env s g) := by
   unfold AllOn; exact inferInstance
 
-/-- after a plain portfolio set-up with grid argument the portfolio, every asset and every WRAPPED asset sit on that grid,
-    in every reachable state and every code version (the pointer part of "same problem no matter what was set up before") -/
-theorem portfolio_setup_all_on (v : Version) (env : Env) (s : PyState) (hs : Reachable v env s) (g : Nat) :
+/-- after a plain portfolio set-up with grid argument the portfolio, every asset and every WRAPPED asset (at every depth) sit on
+    that grid, in every state and every code version (the pointer part of "same problem no matter what was set up before") -/
+theorem portfolio_setup_all_on (v : Version) (env : Env) (s : PyState) (g : Nat) :
     AllOn env (setupSt v env s (.setupPortfolio (some g))).1 g := by
-  obtain ⟨calls, rfl⟩ := hs
-  have h := setupAll_on v env g (List.range env.length) { (run v env (init env) calls) with pf := some g }
-    (run_inv v env calls _ (inv_init env))
+  have h := setupAll_on v env g (List.range env.length) { s with pf := some g }
   refine ⟨by simpa [setupSt, setupPortfolioSt] using h.1, ?_⟩
   intro a ha
   have := h.2 a (Or.inl (List.mem_range.2 ha))
   simpa [setupSt, setupPortfolioSt, On] using this
 
-def envSplit : Env := [.scaled {} { stop := some 9 }, .plain {}]
+def envSplit : Env := [.scaled {} (.plain { stop := some 9 }), .plain {}]
 
 /-- a plain portfolio set-up on grid 0 leaves the portfolio, all assets and all wrapped assets on grid 0 ... -/
 example : AllOn envSplit (run current envSplit (init envSplit) [.setupPortfolio (some 0)]) 0 := by decide
+example : AllOn envDeep (run current envDeep (init envDeep) [.setupSplit 1 [10, 11], .setupPortfolio (some 0)]) 0 := by decide
 /-- ... a split set-up on grid 0 with interval grids 10, 11 does not: -/
 theorem split_leaves_wrapped_assets_on_interval_grid :
     ¬ (∀ (env : Env) (s : PyState) (g : Nat) (tmp : List Nat), Reachable current env s →
@@ -168,27 +288,30 @@ theorem split_leaves_wrapped_assets_on_interval_grid :
   decide
 
 /-- the wrapper is back on grid 0, its base asset sits on interval grid 11 -/
-example : (ownPtrs (run current envSplit (init envSplit) [.setupSplit 0 [10, 11]])).asset 0 = some 0
-    ∧ (ownPtrs (run current envSplit (init envSplit) [.setupSplit 0 [10, 11]])).sub 0 0 = some 11 := by decide
+example : (ownPtrs (run current envSplit (init envSplit) [.setupSplit 0 [10, 11]])).obj [0] = some 0
+    ∧ (ownPtrs (run current envSplit (init envSplit) [.setupSplit 0 [10, 11]])).obj [0, 0] = some 11 := by decide
+/-- in a deeper tree every level below the top stays on the interval grid -/
+example : (List.map (ownPtrs (run current envDeep (init envDeep) [.setupSplit 0 [10, 11]])).obj [[0], [0, 0], [0, 0, 0], [0, 0, 0, 0], [0, 0, 1, 1], [1]])
+    = [some 0, some 11, some 11, some 11, some 11, some 0] := by decide
 
 /-- consequence (the known finding): the same direct no-argument set-up of the wrapped asset gives different problems after
     a plain portfolio set-up and after a split set-up of the same portfolio on the same grid (grid 0 vs the LAST INTERVAL's
     grid 11, see the two examples below): the result depends on which kind of set-up ran before. -/
 theorem wrapped_noarg_after_split_not_pure :
-    (setupSt current envSplit (run current envSplit (init envSplit) [.setupPortfolio (some 0)]) (.setupSub 0 0 none)).2
-      ≠ (setupSt current envSplit (run current envSplit (init envSplit) [.setupSplit 0 [10, 11]]) (.setupSub 0 0 none)).2 := by
+    (setupSt current envSplit (run current envSplit (init envSplit) [.setupPortfolio (some 0)]) (.setup [0, 0] none)).2
+      ≠ (setupSt current envSplit (run current envSplit (init envSplit) [.setupSplit 0 [10, 11]]) (.setup [0, 0] none)).2 := by
   decide
 
-example : (setupSt current envSplit (run current envSplit (init envSplit) [.setupPortfolio (some 0)]) (.setupSub 0 0 none)).2
+example : (setupSt current envSplit (run current envSplit (init envSplit) [.setupPortfolio (some 0)]) (.setup [0, 0] none)).2
     = .ok [usedOf 0 none (some 9) none 0] := by decide +kernel
-example : (setupSt current envSplit (run current envSplit (init envSplit) [.setupSplit 0 [10, 11]]) (.setupSub 0 0 none)).2
+example : (setupSt current envSplit (run current envSplit (init envSplit) [.setupSplit 0 [10, 11]]) (.setup [0, 0] none)).2
     = .ok [usedOf 11 none (some 9) none 0] := by decide +kernel
 
 /-- the TOP-LEVEL call is fine since 19afd7c: after the split the scaled asset itself builds on grid 0 again -/
-example : (setupSt current envSplit (run current envSplit (init envSplit) [.setupSplit 0 [10, 11]]) (.setup 0 none)).2
+example : (setupSt current envSplit (run current envSplit (init envSplit) [.setupSplit 0 [10, 11]]) (.setup [0] none)).2
     = .ok (pureAsset (envSplit.asset 0) 0) := by decide +kernel
 /-- before 19afd7c it built on the interval grid 11 (H2 and H3 together) -/
-example : (setupSt { scaledOwnGrid := false } envSplit (run { scaledOwnGrid := false } envSplit (init envSplit) [.setupSplit 0 [10, 11]]) (.setup 0 none)).2
+example : (setupSt { scaledOwnGrid := false } envSplit (run { scaledOwnGrid := false } envSplit (init envSplit) [.setupSplit 0 [10, 11]]) (.setup [0] none)).2
     = .ok (pureAsset (envSplit.asset 0) 11) := by decide +kernel
 
 /-! ### interval data: the normal form evaluates like the raw form -/
